@@ -16,7 +16,7 @@ from sim.kernel import Choices, mix_seed, sha, shrink, write_replay
 
 ROOT = os.path.dirname(os.path.dirname(os.path.abspath(__file__)))
 
-FAMILY_SALT = {"e1": 11, "e2": 22, "e3": 33, "e4": 44, "e5": 55, "e6": 66, "e1c13": 77}
+FAMILY_SALT = {"e1": 11, "e2": 22, "e3": 33, "e4": 44, "e5": 55, "e6": 66, "e1c13": 77, "e7": 88}
 FAMILY_MODULE = {
     "e1": "sim.families.e1_engine",
     "e2": "sim.families.e2_mp",
@@ -25,6 +25,7 @@ FAMILY_MODULE = {
     "e5": "sim.families.e5_capacity",
     "e6": "sim.families.e6_models",
     "e1c13": "sim.families.e1_rewrite",
+    "e7": "sim.families.e7_boundscheck",
 }
 
 
